@@ -13,7 +13,8 @@ PROP = dict(
          '-files, -generate) and the archive is read back with archive/tar. Non-trivial: the selection is a proper '
          'non-empty subset of the installed packages or an add-files script is present; distinct by the whole input',
     explanation='theorems about Model.StageList (see docs/C06.md); per case Coq evaluates wf, model=obs, spec(obs)',
-    assumptions=['the package selection printed by `stagemaker -list stage` is taken as an input (property C05)',
+    assumptions=['constants regenerated from the source on every run (Gen/Consts.v) that the predicate or the documented part of the model rests on -- StandardStageDirs, StageMagic, DoNotTraverse, DevDirSetup, DevDirExtend, MaxSymlinkChain -- are compared with literals by theorem C06_constants_pinned: an edit of one of them is reported (proof obligation no longer checks) and has to be reviewed; values the manual does not state are the values of the reviewed tree',
+        'the package selection printed by `stagemaker -list stage` is taken as an input (property C05)',
                  'paths that run through symlinked directories are outside the modelled domain (wf)',
                  'the build root is not "/" itself',
                  'what lstat finds at the absolute host paths of src= options is taken as an input (i_ext)'],
